@@ -17,7 +17,7 @@ BR23 = dict(fthr=2, fcap=3, frate=0, fexec=0, period=0, sthr=2, scap=2, delay=0)
 
 def retry(max=2, h=(), a=(), rlf=False, dly=0, maxd=0): return dict(k="retry", max=max, h=TSet(h), a=TSet(a), rlf=rlf, dly=dly, maxd=maxd)
 def cb(id, cfg, h=()): return dict(k="cb", id=id, cfg=cfg, h=TSet(h))
-def rl(id, m): return dict(k="rl", id=id, m=m)
+def rl(id, m, per=0): return dict(k="rl", id=id, m=m, per=per)
 def bh(id, max, pre=0): return dict(k="bh", id=id, max=max, pre=pre)
 def fb(fr="RF", fe=None, h=()): return dict(k="fb", fr=fr, fe=leaf(fe) if fe else NIL, h=TSet(h))
 def cache(id, key="k", ifc=()): return dict(k="cache", id=id, key=key, ifc=TSet(ifc))
@@ -37,6 +37,7 @@ CATALOG = {
     "rpH2":  retry(1, h=[cE("E1"), cE("E2")]),           # two handled errors in one registration (E3 etc. unhandled)
     "rpU":   retry(-1, a=[cE("E2")]),                    # unlimited
     "rp3":   retry(3),
+    "rpW":   retry(3, dly=2),                            # three retries two units apart
     "rpD":   retry(3, dly=2, maxd=3),                    # max duration 3 units with a 2 unit delay
     "rpUD":  retry(-1, dly=1, maxd=2),                   # unlimited retries bounded only by the max duration
     "rpDL":  retry(2, dly=3, maxd=4, rlf=True),
@@ -44,11 +45,13 @@ CATALOG = {
     "cbB":   cb("cbB", BR2),
     "cbC":   cb("cbC", BR23, h=[cE("E1")]),
     "rl2":   rl("rl2", 2),
+    "rlP":   rl("rlP", 1, per=3),                        # one permit per period of 3 units: refusals and admissions across period boundaries
     "bh1":   bh("bh1", 1),
     "bh2p":  bh("bh2p", 2, pre=1),
     "fbR":   fb(),
     "fbE":   fb(fr="R0", fe="EFB"),
     "fbH":   fb(h=[cE("E1")]),
+    "fbH2":  fb(h=[cE("E2"), cE("E1")]),                 # two handled errors in one registration
     "fbX":   fb(h=[cE("ErrExceeded"), cR("R1")]),
     "fbO":   fb(h=[cE("ErrOpen")]),
     "fbHE":  fb(fr="R0", fe="EFB", h=[cE("E1")]),        # its own output is an error it does not handle: verdict success
